@@ -126,10 +126,15 @@ type Explorer struct {
 var X *Explorer
 
 type solver struct {
-	cmd *exec.Cmd
-	in  *bufio.Writer
-	out *bufio.Reader
-	log io.Writer
+	cmd   *exec.Cmd
+	in    *bufio.Writer
+	out   *bufio.Reader
+	log   io.Writer
+	lines chan string
+	limit time.Duration
+	argv  []string
+	toMS  int
+	dead  bool
 }
 
 func newSolver(argv []string, timeoutMS int) *solver {
@@ -140,12 +145,24 @@ func newSolver(argv []string, timeoutMS int) *solver {
 	if err := cmd.Start(); err != nil {
 		panic(err)
 	}
-	s := &solver{cmd: cmd, in: bufio.NewWriterSize(in, 1<<16), out: bufio.NewReaderSize(out, 1<<16)}
+	s := &solver{cmd: cmd, in: bufio.NewWriterSize(in, 1<<16), out: bufio.NewReaderSize(out, 1<<16), argv: argv, toMS: timeoutMS,
+		lines: make(chan string, 64), limit: time.Duration(timeoutMS)*time.Millisecond + 10*time.Second}
+	go func(r *bufio.Reader, ch chan string) {
+		for {
+			l, err := r.ReadString('\n')
+			if err != nil {
+				close(ch)
+				return
+			}
+			ch <- l
+		}
+	}(s.out, s.lines)
 	if f := os.Getenv("SYMGO_SMTLOG"); f != "" {
 		w, _ := os.Create(fmt.Sprintf("%s.%d", f, os.Getpid()))
 		s.log = w
 	}
 	s.send("(set-option :print-success false)")
+	s.send("(set-option :produce-models true)")
 	if strings.Contains(argv[0], "z3") {
 		s.send(fmt.Sprintf("(set-option :timeout %d)", timeoutMS))
 	} else {
@@ -155,6 +172,9 @@ func newSolver(argv []string, timeoutMS int) *solver {
 }
 
 func (s *solver) send(l string) {
+	if s.dead {
+		return
+	}
 	if s.log != nil {
 		io.WriteString(s.log, l+"\n")
 	}
@@ -163,22 +183,35 @@ func (s *solver) send(l string) {
 }
 
 func (s *solver) line() string {
+	if s.dead {
+		panic(abortPath{KUnknown, "solver was stopped after exceeding its time limit"})
+	}
 	s.in.Flush()
 	for {
-		l, err := s.out.ReadString('\n')
-		if err != nil {
-			panic(abortPath{KUnknown, "solver died: " + err.Error()})
-		}
-		l = strings.TrimSpace(l)
-		if l != "" {
-			return l
+		select {
+		case l, ok := <-s.lines:
+			if !ok {
+				s.dead = true
+				panic(abortPath{KUnknown, "solver died"})
+			}
+			l = strings.TrimSpace(l)
+			if l != "" {
+				return l
+			}
+		case <-time.After(s.limit):
+			// the solver ignored its own timeout: stop it; the explorer starts a new one for the next path
+			s.dead = true
+			s.cmd.Process.Kill()
+			panic(abortPath{KUnknown, "solver did not answer within its time limit (process stopped)"})
 		}
 	}
 }
 
 func (s *solver) close() {
-	s.send("(exit)")
-	s.in.Flush()
+	if !s.dead {
+		s.send("(exit)")
+		s.in.Flush()
+	}
 	s.cmd.Process.Kill()
 	s.cmd.Wait()
 }
@@ -685,6 +718,10 @@ func (e *Explorer) RunPrefix(j *Job, prefix []string, concrete map[string]uint64
 		MaxPreempt = j.MaxPreempt
 	}
 	if !e.IsConcrete {
+		if e.z.dead {
+			e.z.close()
+			e.z = newSolver(e.SolverCmd, e.TimeoutMS)
+		}
 		e.z.send("(push 1)")
 	}
 	CallStack = nil
@@ -710,7 +747,7 @@ func (e *Explorer) RunPrefix(j *Job, prefix []string, concrete map[string]uint64
 		e.record(KOK, "", true, "true")
 	}()
 	killGoroutines()
-	if !e.IsConcrete {
+	if !e.IsConcrete && !e.z.dead {
 		e.z.send("(pop 1)")
 	}
 	e.Paths++
